@@ -21,7 +21,10 @@ EXTENDS Naturals, Sequences, FiniteSets, TLC
 
 CONSTANTS Threads, Cbs, Scenarios
 \* a scenario: [id |-> n, prog |-> <<Seq(op)>> per thread, body |-> <<Seq(op)>> per callback]
-\* op: <<"reg", c>> | <<"dereg", c>> | <<"req">>
+\* op: <<"reg", c>> | <<"dereg", c>> | <<"req">> | <<"up", i>>
+\* <<"up", i>> is request_stop() on upstream source i of a fused_stop_source / inplace_stop_token_adapter: the
+\* upstream's single forwarding callback calls request_stop() on this source (the upstream's own protocol is the
+\* same module instantiated with one callback and is abstracted here to "the first request on upstream i forwards")
 
 VARIABLES scn,        \* chosen scenario
           state,      \* SUBSET {"stop","locked"}            state_
@@ -33,13 +36,14 @@ VARIABLES scn,        \* chosen scenario
           notifier,   \* notifyingThreadId_ (0 = unset)
           frames,     \* [Threads -> Seq(frame)], head = innermost call
           \* history variables for the properties
+          upReq,      \* [1..2 -> BOOLEAN] stop already requested on upstream source i (fused scenarios)
           exec,       \* [Cbs -> Nat] times the callback body was entered
           running,    \* [Cbs -> thread executing it, 0 = none]
           destroyed,  \* [Cbs -> BOOLEAN] destructor returned
           reqRet,     \* sequence of request_stop() return values in order of return
           bad,        \* "ok" or the name of a memory-safety / protocol breach
           lastT, lastPc   \* export only (hidden by VIEW)
-vars == <<scn, state, list, link, srcNull, completed, rdptr, notifier, frames,
+vars == <<scn, state, list, link, srcNull, completed, rdptr, notifier, frames, upReq,
           exec, running, destroyed, reqRet, bad>>
 ghosts == <<lastT, lastPc>>
 
@@ -59,6 +63,7 @@ Init ==
   /\ link = [c \in Cbs |-> "none"] /\ srcNull = [c \in Cbs |-> FALSE]
   /\ completed = [c \in Cbs |-> FALSE] /\ rdptr = [c \in Cbs |-> <<0, 0>>]
   /\ frames = [t \in Threads |-> <<Prog(scn.prog[t])>>]
+  /\ upReq = [i \in 1..2 |-> FALSE]
   /\ exec = [c \in Cbs |-> 0] /\ running = [c \in Cbs |-> 0]
   /\ destroyed = [c \in Cbs |-> FALSE] /\ reqRet = <<>> /\ bad = "ok"
   /\ lastT = 0 /\ lastPc = ""
@@ -67,11 +72,16 @@ Init ==
 ProgStep(t) ==
   /\ frames[t] # <<>> /\ Top(t).op = "prog"
   /\ LET f == Top(t) IN
-     IF f.i > Len(f.code) THEN frames' = Pop(t)
+     IF f.i > Len(f.code) THEN frames' = Pop(t) /\ UNCHANGED upReq
      ELSE LET o == f.code[f.i]  g == [f EXCEPT !.i = @ + 1] IN
           IF o[1] = "dereg" /\ UnderConstruction(t, o[2])
-          THEN frames' = SetTop(t, g)      \* destroying a registration inside its own constructor is not a legal use
-          ELSE frames' = PushOn(t,
+          THEN frames' = SetTop(t, g) /\ UNCHANGED upReq   \* destroying a registration inside its own constructor is not a legal use
+          ELSE IF o[1] = "up"
+          THEN IF upReq[o[2]] THEN frames' = SetTop(t, g) /\ UNCHANGED upReq      \* upstream already stopped: returns at once
+               ELSE /\ upReq' = [upReq EXCEPT ![o[2]] = TRUE]
+                    /\ frames' = PushOn(t, Fr("req", 0, "q0"), g)                 \* the forwarding callback calls request_stop()
+          ELSE /\ UNCHANGED upReq
+               /\ frames' = PushOn(t,
                       IF o[1] = "req" THEN Fr("req", 0, "q0")
                       ELSE Fr(o[1], o[2], IF o[1] = "reg" THEN "r0" ELSE "d0"),
                       g)
@@ -98,7 +108,7 @@ RegStep(t) ==
             /\ running' = [running EXCEPT ![c] = 0]
             /\ frames' = Pop(t)
             /\ UNCHANGED <<state, list, link, srcNull, exec>>
-  /\ UNCHANGED <<scn, completed, rdptr, notifier, destroyed, reqRet, bad>>
+  /\ UNCHANGED <<scn, completed, rdptr, notifier, destroyed, reqRet, bad, upReq>>
 
 \* ---- request_stop ----
 ReqStep(t) ==
@@ -143,7 +153,7 @@ ReqStep(t) ==
             /\ state' = state \cup {"locked"}
             /\ frames' = SetTop(t, [f EXCEPT !.pc = "q1"])
             /\ UNCHANGED <<list, link, completed, rdptr, notifier, exec, running, reqRet, bad>>
-  /\ UNCHANGED <<scn, srcNull, destroyed>>
+  /\ UNCHANGED <<scn, srcNull, destroyed, upReq>>
 
 \* ---- ~inplace_stop_callback / remove_callback ----
 SetRd(fs, d) == \* set the rd flag of the frame at depth d (counted from the bottom)
@@ -170,7 +180,7 @@ DeregStep(t) ==
             /\ destroyed' = [destroyed EXCEPT ![c] = TRUE]
             /\ bad' = IF running[c] \notin {0, t} THEN "destroyed-while-running" ELSE bad
             /\ frames' = Pop(t) /\ UNCHANGED <<list, link>>
-  /\ UNCHANGED <<scn, state, srcNull, completed, rdptr, notifier, exec, running, reqRet>>
+  /\ UNCHANGED <<scn, state, srcNull, completed, rdptr, notifier, exec, running, reqRet, upReq>>
 
 \* same thread as the notifier: tell the requester frame that the callback object is gone
 DeregD1(t) ==
@@ -181,7 +191,7 @@ DeregD1(t) ==
                   ELSE Pop(t)
      /\ destroyed' = [destroyed EXCEPT ![c] = TRUE]
   /\ UNCHANGED <<scn, state, list, link, srcNull, completed, rdptr, notifier,
-                 exec, running, reqRet, bad>>
+                 exec, running, reqRet, bad, upReq>>
 
 Step(t) == \/ ProgStep(t) \/ RegStep(t) \/ ReqStep(t)
            \/ (frames[t] # <<>> /\ Top(t).pc # "d1" /\ DeregStep(t)) \/ DeregD1(t)
